@@ -148,6 +148,8 @@ pub struct GenCfg {
     /// ... or never awaited at all (the run then ends Suspended -> Done and its completion value
     /// is not reported: only driver comparisons use this)
     pub f_batch_unawaited: bool,
+    /// every third generated name is more than 100 bytes long
+    pub f_long_names: bool,
 }
 
 impl GenCfg {
@@ -182,6 +184,7 @@ impl GenCfg {
             force_matrix: None,
             f_batch_orders: on(0.6),
             f_batch_unawaited: false,
+            f_long_names: on(0.15),
         }
     }
 }
@@ -340,6 +343,10 @@ impl<'a> Gen<'a> {
 
     fn fresh(&mut self, p: &str) -> String {
         self.counter += 1;
+        if self.cfg.f_long_names && self.counter % 3 == 0 {
+            // identifiers far beyond any small-string / interning threshold
+            return format!("{}{}{}_{}", self.uniq_prefix, p, self.counter, "long_descriptive_identifier_segment_".repeat(3));
+        }
         format!("{}{}{}", self.uniq_prefix, p, self.counter)
     }
 
@@ -1269,7 +1276,9 @@ impl<'a> Gen<'a> {
         let c = self.fresh("rc");
         let n = self.sync_num(0);
         let m = 2 + self.rng.below(4);
-        let body = match self.rng.below(14) {
+        // (template 12 leaves a block with `break`: quarantined with KF-C14-3 where f_break is off)
+        let pick = self.rng.below(14);
+        let body = match if pick == 12 && !self.cfg.f_break { 6 } else { pick } {
             0 => format!("for (let {a}: any = {{ v: 0 }}, {b}: any = {{ v: {m} * 2 }}; {a}.v < {b}.v; {a} = {{ v: {a}.v + 1 }}, {b} = {{ v: {b}.v - 1 }}) {{ {c}.push({a}.v + \":\" + {b}.v); }}"),
             1 => format!("for (let {a}: any = {{ n: 0 }}, {b}: any = {a}; {a} && {a}.n < {m}; {b} = {a}, {a} = {{ n: {a}.n + 1, p: [{b}] }}) {{ {c}.push({b}.n + \">\" + {a}.n); }}"),
             2 => format!("let {a}: any = {{ v: {n} }}; let {b}: any = {{ v: 1, l: [{{}}] }}; for (let i = 0; i < {m}; i++) {{ [{a}, {b}] = [{b}, {{ v: {a}.v + i, was: [{a}] }}]; }} {c}.push({a}.v + \"/\" + {b}.v);"),
